@@ -37,6 +37,20 @@ Order   : dict key ORDER is not compared (JSON objects are unordered; Python's =
           alarmed on — see the header of lean/JRV/Properties/C01.lean.
 Mixed   : out-of-domain batches mixing fates (unknown method, arguments that do not bind, ordinary jobs, notifications)
           are run for correspondence with the model (`C01_batch_mixed`): per-position outcome and effect log.
+Registry: the server's registry as a MUTABLE object over a history (harness/c01reg.py, model JRV.Model.RegistryProg):
+          scenarios whose ops interleave calls / notifications / batches with register_function (three spellings) /
+          `del funcs[name]` / register_instance (replacement, None, an object registered again later) / setattr and
+          delattr on (attributes of) instance objects, registered or not / register_introspection_functions.  Every
+          callable of the pool logs its identity; what a name denotes at the moment of a call is computed from the
+          ops alone (`c01reg.Sim`), so the monitor alarms when a STALE callable runs (a name that was called before the
+          registry changed).  `system.listMethods` must list what is registered now.  Hand-written programs (one per
+          way a denotation can change) run on every rig; random programs return to a few focus names after every change.
+Sizes   : `c01reg.sized_scenarios`: boundary sizes 0..12, 15-17, 19-21, 31-33, 63-65, 99-101, 127-129 (thorough: up to
+          1025) for every count the other generators keep small — jobs per batch (results identify their position: the
+          callable returns its arguments and job i is given i; no / some / all / first / last notifications), positional
+          arguments, keywords, segments of a dotted name, nesting depth and width of a value, registered callables,
+          exchanges on one proxy and History, uses of one kept MultiCall / method object, length of a method name.
+          Histogram keys `size/<dimension>/<n>`.
 Assumed : the JSON codec laws `Backend.roundtrip` and `Backend.batch` — tested here against jsonrpclib.jdumps/jloads on
           every generated value and batch.
 """
@@ -48,6 +62,7 @@ import socket
 import tempfile
 import threading
 
+import c01reg
 import gen
 import impl
 import pyval
@@ -66,11 +81,18 @@ REQUIRED_THEOREMS = [
     "C01_multicall_keeps_on_failure",
     # transports / server classes; satisfiability of the codec laws
     "C01_over_wire", "C01_backend_exists",
+    # the registry as a mutable object (JRV.Model.RegistryProg)
+    "C01_registry_requests_leave_state", "C01_registry_fresh_dispatcher", "C01_registry_static",
+    "C01_registry_function_wins", "C01_registry_function_other", "C01_registry_function_deleted",
+    "C01_registry_instance_replaced", "C01_registry_attribute_rebound", "C01_registry_attribute_deleted",
+    "C01_registry_list_methods_current", "C01_single_after_program", "C01_batch_after_program",
     # companions of the extracted facts (JRV/Properties/C01Gen.lean)
     "C01_gen_methodSendsArgsElseKwargs", "C01_gen_requestReturnsResult", "C01_gen_historyOrder",
     "C01_gen_multicallFormat", "C01_gen_multicallVersion", "C01_gen_iteratorPositional", "C01_gen_proxyOwnAttrs",
     "C01_gen_proxyGetattrRefuses", "C01_gen_proxyGetattrReturns", "C01_gen_methodGetattr", "C01_gen_jobGetattr",
     "C01_gen_multicallClearsJobs", "C01_gen_multicallGetattrAppends", "C01_gen_callReceiverPositional",
+    "C01_gen_requestWrites", "C01_gen_servePathSharedWrites", "C01_gen_multicallResponsesUntouched",
+    "C01_gen_multicallJobIds",
 ]
 
 J = impl.jsonrpclib.jsonrpc
@@ -583,8 +605,14 @@ def make_def(sig, name, target, beh, log):
         ps.append("*args")
     if kw:
         ps.append("**kwargs")
-    src = "def _f(%s):\n    _log.append(('call', _target, _name, ([%s], %s, %s), False))\n    return _run(_beh)\n" % (
-        ", ".join(ps), ", ".join(names), "list(args)" if star else "[]", "dict(kwargs)" if kw else "{}")
+    if beh[0] == "echo":
+        # returns its arguments (a variadic signature): the positional ones as a list, else the keywords
+        assert not names and star and kw
+        action = "return list(args) if (args or not kwargs) else dict(kwargs)"
+    else:
+        action = "return _run(_beh)"
+    src = "def _f(%s):\n    _log.append(('call', _target, _name, ([%s], %s, %s), False))\n    %s\n" % (
+        ", ".join(ps), ", ".join(names), "list(args)" if star else "[]", "dict(kwargs)" if kw else "{}", action)
     env = {"_D": sc._D, "_log": log, "_target": target, "_name": name, "_run": run_beh, "_beh": beh}
     exec(src, env)  # noqa: S102 - generated from a closed grammar of identifiers
     return env["_f"]
@@ -756,6 +784,8 @@ def walk(obj, path):
 # which the real side executes on the real objects and the model on its object heap (`e2e` op "script").
 
 def uses_vars(op):
+    if op["op"] == "reg":
+        return False
     if op.get("keep") or op.get("nkeep") or op.get("mc"):
         return True
     if op["op"] == "odd" and op.get("kind") == "script":
@@ -765,6 +795,8 @@ def uses_vars(op):
 
 def op_vars(op):
     out = set()
+    if op["op"] == "reg":
+        return out
     if op.get("keep"):
         out.add(op["keep"][0])
     for f in ("nkeep", "mc"):
@@ -862,7 +894,11 @@ def run_real(rig, s):
     """Runs the scenario on the real code.  Returns the records of the ops and the History."""
     del rig.log[:]
     del rig.captured[:]
-    install(rig.disp, s["callables"], rig.log)
+    registry = None
+    if s.get("registry"):
+        registry = c01reg.RealRegistry(rig.disp, s["callables"], rig.log, make_def)
+    else:
+        install(rig.disp, s["callables"], rig.log)
     hist = impl.jsonrpclib.history.History()
     proxy = rig.proxy(s, hist)
     mcfg = impl.jsonrpclib.config.Config(version=s["mver"], use_jsonclass=s["muj"])
@@ -874,7 +910,9 @@ def run_real(rig, s):
             l0, c0 = len(rig.log), len(rig.captured)
             h0 = (len(hist.requests), len(hist.responses))
             kind = op["kind"] if op["op"] == "odd" else op["op"]
-            if uses_vars(op):
+            if kind == "reg":
+                rec = {"outcome": impl.outcome(registry.apply, op)}
+            elif uses_vars(op):
                 steps = comp.compile(op)
                 k, v = impl.outcome(exec_steps, env, steps, proxy, mcfg)
                 rec = {"outcome": (k, v)}
@@ -929,7 +967,10 @@ def expected_view(c, args, kwargs):
     return sc.callee_view(c["sig"], [])
 
 
-def expected_return(c):
+def expected_return(c, args=(), kwargs=None):
+    """The callable's return value up to JSON normalisation (`echo` returns the arguments it was called with)."""
+    if c["beh"][0] == "echo":
+        return norm(list(args)) if (args or not kwargs) else norm(kwargs)
     return norm(c["beh"][1])
 
 
@@ -942,6 +983,8 @@ def short(v, limit=240):
 def check_one_call(entry, c, args, kwargs, where):
     _, target, name, view, _ = entry
     if name != c["name"] or target != c["target"]:
+        if target == "uid":
+            return "%s: function object %s ran, but the callable registered under that name NOW is function object %s" % (where, name, c["name"])
         return "%s: %s %r was invoked instead of %r" % (where, target, name, c["name"])
     exp = expected_view(c, args, kwargs)
     if not view_eq(view, exp):
@@ -949,22 +992,26 @@ def check_one_call(entry, c, args, kwargs, where):
     return None
 
 
-def check_value(got, c, where):
-    exp = expected_return(c)
+def check_value(got, c, where, args=(), kwargs=None):
+    exp = expected_return(c, args, kwargs)
     if not strict_eq(got, exp):
-        return "%s: returned %s, the callable returned %s (normalised %s)" % (where, short(got), short(c["beh"][1]), short(exp))
+        return "%s: returned %s, the callable returned %s (normalised %s)" % (
+            where, short(got), short(c["beh"][1] if len(c["beh"]) > 1 else "its arguments"), short(exp))
     return None
 
 
 def monitor(s, records, hist):
     """Returns a list of (message, key)."""
     out = []
+    if s.get("registry"):
+        # a mutable registry: which callable every name denotes at the moment of its call, from the ops alone
+        s = c01reg.resolved(s)
     cs = s["callables"]
     all_captured = []
     for n, (op, rec) in enumerate(zip(s["ops"], records)):
         where = "op %d (%s)" % (n, op["op"])
         all_captured.extend(rec["captured"])
-        if op["op"] == "odd":
+        if op["op"] in ("odd", "reg"):
             continue
         k, v = rec["outcome"]
         # History: exactly the texts exchanged, in order (reported after the outcome of the call itself)
@@ -976,7 +1023,14 @@ def monitor(s, records, hist):
         if rec["hist"][0] != req_c or rec["hist"][1] != rep_c or not all(isinstance(t, str) for t in rec["hist"][0] + rec["hist"][1]):
             hist_msgs.append(("%s: History recorded %s / %s, exchanged %s / %s" % (
                 where, short(rec["hist"][0]), short(rec["hist"][1]), short(req_c), short(rep_c)), "history"))
-        if op["op"] in ("call", "notify"):
+        if op["op"] == "call" and op.get("intro") is not None:
+            # a bound method of the dispatcher (system.listMethods / system.methodSignature): no instrumented callable
+            # runs, the value is what the method returns for the registry as it is NOW
+            if rec["log"]:
+                out.append(("%s: %s invoked %s" % (where, ".".join(op["path"]), short([e[2] for e in rec["log"]])), "intro-invoked"))
+            if k != "ok" or not strict_eq(v, norm(op["intro"][0])):
+                out.append(("%s: %s gave %s %s, registered now: %s" % (where, ".".join(op["path"]), k, short(v), short(op["intro"][0])), "intro-value"))
+        elif op["op"] in ("call", "notify"):
             c = cs[op["callee"]]
             args, kwargs = send_args(op)
             if len(rec["log"]) != 1:
@@ -995,9 +1049,9 @@ def monitor(s, records, hist):
                     out.append(("%s: notification response recorded as %r" % (where, rec["hist"][1]), "notify-history"))
             else:
                 if k != "ok":
-                    out.append(("%s: raised %s(%s) instead of returning %s" % (where, type(v).__name__, short(v.args), short(expected_return(c))), "call-raised"))
+                    out.append(("%s: raised %s(%s) instead of returning %s" % (where, type(v).__name__, short(v.args), short(expected_return(c, args, kwargs))), "call-raised"))
                 else:
-                    m = check_value(v, c, where)
+                    m = check_value(v, c, where, args, kwargs)
                     if m:
                         out.append((m, "call-value"))
         else:
@@ -1029,12 +1083,12 @@ def monitor(s, records, hist):
                 elif ki != "ok":
                     out.append(("%s: result %d raised %s%s" % (where, i, type(vi).__name__, short(vi.args)), "batch-item-raised"))
                 else:
-                    m = check_value(vi, c, "%s result %d" % (where, i))
+                    m = check_value(vi, c, "%s result %d" % (where, i), *send_args(j))
                     if m:
                         out.append((m, "batch-position"))
             if all(cs[j["callee"]]["beh"][0] != "raise" for j in answered):
                 ka, va = rec["iter"]
-                if ka != "ok" or not strict_eq(va, [expected_return(cs[j["callee"]]) for j in answered]):
+                if ka != "ok" or not strict_eq(va, [expected_return(cs[j["callee"]], *send_args(j)) for j in answered]):
                     out.append(("%s: iteration gave %s %s" % (where, ka, short(va)), "batch-iter"))
         out.extend(hist_msgs)
     if hist[0] != [d for d, _r in all_captured] or hist[1] != [r for _d, r in all_captured]:
@@ -1046,6 +1100,8 @@ def monitor(s, records, hist):
 # the model side
 
 def enc_beh(b):
+    if b[0] == "echo":
+        return ["echo"]
     if b[0] == "ret":
         return ["ret", b[1]]
     if b[0] == "rett":
@@ -1067,8 +1123,10 @@ def enc_registry(desc):
         "custom": None})
 
 
-def enc_op(op, comp=None):
+def enc_op(op, comp=None, s=None):
     kind = op["kind"] if op["op"] == "odd" else op["op"]
+    if kind == "reg":
+        return ["reg", c01reg.enc_regop(op, s["callables"], enc_beh)]
     if uses_vars(op):
         return ["script", comp.compile(op)]
     if kind in ("call", "notify"):
@@ -1085,8 +1143,8 @@ def model_line(s):
     comp = Compiler()
     return "e2e L6 %s %s %s %s %s %s" % (
         sc.enc_cfg(s["cver"], s["cuj"]), pyval.enc(None if s["carg"] is None else int(round(s["carg"] * 10))),
-        sc.enc_cfg(s["sver"], s["suj"]), enc_registry(registry_desc(s["callables"])), sc.enc_cfg(s["mver"], s["muj"]),
-        pyval.enc([enc_op(op, comp) for op in s["ops"]]))
+        sc.enc_cfg(s["sver"], s["suj"]), enc_registry(registry_desc([] if s.get("registry") else s["callables"])),
+        sc.enc_cfg(s["mver"], s["muj"]), pyval.enc([enc_op(op, comp, s) for op in s["ops"]]))
 
 
 _UUID = re.compile(r"^[0-9a-f]{8}-[0-9a-f]{4}-[0-9a-f]{4}-[0-9a-f]{4}-[0-9a-f]{12}$|^fresh#\d+$")
@@ -1160,8 +1218,22 @@ def batch_like(op):
     return kind == "batch" or (kind == "script" and bool(op.get("batch")))
 
 
+def variadic_view(params):
+    """The callee view of `(*args, **kwargs)` for the params value a request carries."""
+    return [[], list(params), {}] if isinstance(params, (list, tuple)) else [[], [], dict(params)]
+
+
+def registry_effect_real(e):
+    return "call %s" % pyval.enc(sc._view_plain(e[3]), canon=True)
+
+
+def registry_effect_model(tree):
+    e = sc.from_model(tree)
+    return "call %s" % pyval.enc(variadic_view(e[3]), canon=True)
+
+
 def project_real(s, records, hist):
-    desc = registry_desc(s["callables"])
+    desc = registry_desc([] if s.get("registry") else s["callables"])
     ids = Ids()
     ops = []
     for op, rec in zip(s["ops"], records):
@@ -1173,7 +1245,11 @@ def project_real(s, records, hist):
                 o = "iter " + " ; ".join(canon_outcome_real(*x) for x in rec["items"])
         else:
             o = canon_outcome_real(k, v)
-        ops.append((o, [sc.canon_effect_real(e, None) for e in rec["log"]]))
+        if s.get("registry"):
+            # the pool's callables are variadic and placed under changing names: which one ran shows in the value
+            ops.append((o, [registry_effect_real(e) for e in rec["log"]]))
+        else:
+            ops.append((o, [sc.canon_effect_real(e, None) for e in rec["log"]]))
     del desc
     h = ([canon_text_real(t, ids) for t in hist[0]], [canon_text_real(t, ids) for t in hist[1]])
     return ops, h
@@ -1185,11 +1261,12 @@ def project_model(s, line):
         return None
     if not line.startswith("ok "):
         return ("bad", line)
-    desc = registry_desc(s["callables"])
+    desc = registry_desc([] if s.get("registry") else s["callables"])
     tr = pyval.parse(line[3:])
     parts = tr[1]
     ids = Ids()
     ops = []
+    intro = c01reg.intro_names_at(s) if s.get("registry") else None
     for op, part in zip(s["ops"], parts[:-1]):
         out_t, eff_t = part[1]
         o = pyval.from_tree(out_t)
@@ -1200,7 +1277,12 @@ def project_model(s, line):
                 oc = "iter " + " ; ".join(canon_outcome_model(x) for x in o[1])
         else:
             oc = canon_outcome_model(o)
-        ops.append((oc, [sc.canon_effect_model(t, desc) for t in eff_t[1]]))
+        if s.get("registry"):
+            # the bound methods of the dispatcher (system.*) are not instrumented on the real side
+            effs = [t for t in eff_t[1] if sc.from_model(t)[2] not in intro[len(ops)]]
+            ops.append((oc, [registry_effect_model(t) for t in effs]))
+        else:
+            ops.append((oc, [sc.canon_effect_model(t, desc) for t in eff_t[1]]))
     hreq, hresp = pyval.from_tree(parts[-1])
     # request texts first, then responses — the same walk as on the real side
     h = ([canon_text_model(t, ids) for t in hreq], [canon_text_model(t, ids) for t in hresp])
@@ -1268,6 +1350,12 @@ RIGS_THOROUGH = [("bare", "loop", "std"), ("bare", "loop", "raw"), ("simple", "l
 
 def scenario_key(s, rig):
     kinds = []
+    if s.get("registry"):
+        for op in s["ops"]:
+            kinds.append(op["do"] if op["op"] == "reg" else op["op"][0] + ".".join(op.get("path") or [str(len(op.get("jobs") or []))]))
+        return (rig, effective_client_version(s), s["sver"], s["cuj"], s["suj"], tuple(kinds))
+    if s.get("size"):
+        return (rig, effective_client_version(s), s["sver"], tuple(s["size"]))
     for op in s["ops"]:
         if op["op"] == "batch":
             kinds.append("b" + "".join("n" if j["notify"] else "c" for j in op["jobs"]))
@@ -1277,7 +1365,7 @@ def scenario_key(s, rig):
             style = "p" if op["args"] else ("k" if op["kwargs"] else "0")
             c = s["callables"][op["callee"]]
             dotted = "d" if "." in c["name"] else "s"
-            kinds.append(op["op"][0] + style + dotted + c["target"][0] + gen.shape(c["beh"][1] if c["beh"][0] != "raise" else "raise")[:12])
+            kinds.append(op["op"][0] + style + dotted + c["target"][0] + gen.shape(c["beh"][1] if c["beh"][0] in ("ret", "rett") else c["beh"][0])[:12])
     return (rig, effective_client_version(s), s["sver"], s["cuj"], s["suj"], tuple(kinds))
 
 
@@ -1309,7 +1397,9 @@ def run_group(ctx, rig_spec, scenarios, tmpdir, lines, pending):
                     ctx.violate(case, msg, key="%s:%s" % (key, transport if transport != "loop" else "loop"))
                 # the model is interpreted: the long payloads (about 100 kB a line) are run through it once per value,
                 # on the first rig; on the other rigs they are judged by the monitor alone
-                if not s.get("long") or (rig_spec == RIGS_QUICK[0] and s.get("long_model")):
+                # (the boundary-size scenarios likewise: through the model on the bare rig, by the monitor alone elsewhere)
+                if (not s.get("long") and not (s.get("size") and rig_spec != RIGS_QUICK[0])) \
+                        or (rig_spec == RIGS_QUICK[0] and s.get("long_model")):
                     lines.append(model_line(s))
                     pending.append((s, rig_spec, project_real(s, records, hist)))
                 else:
@@ -1318,9 +1408,17 @@ def run_group(ctx, rig_spec, scenarios, tmpdir, lines, pending):
                                      "ops": [op["op"] for op in s["ops"]]},
                           nontrivial_key=scenario_key(s, label), kind="scenario/" + label)
                 for c in s["callables"]:
-                    if any(seg.startswith("_") for seg in c["name"].split(".")):
+                    if any(seg.startswith("_") for seg in c.get("name", "").split(".")):
                         ctx.hist["name/underscore-segment"] += 1
+                if s.get("size"):
+                    ctx.hist["size/%s/%d" % tuple(s["size"])] += 1
+                if s.get("registry"):
+                    ctx.hist["registry/programs"] += 1
+                    ctx.hist["registry/calls-of-a-name-whose-denotation-changed"] += len(c01reg.stale_possible(s))
                 for op in s["ops"]:
+                    if op["op"] == "reg":
+                        ctx.hist["registry/op/" + op["do"] + ("/" + op["style"] if op.get("style") else "")] += 1
+                        continue
                     for f in ("mc", "keep", "nkeep"):
                         if op.get(f):
                             ctx.hist["reuse/" + f] += 1
@@ -1356,7 +1454,9 @@ def shrink(rig, rig_spec, s, found):
     op = s["ops"][idx]
     candidates = []
     vs = op_vars(op)
-    if vs:
+    if s.get("registry"):
+        candidates = c01reg.shrink_candidates(s, idx)
+    elif vs:
         # the failing op uses kept objects: the ops up to it that share one of them (order kept), nothing else
         group = [o for o in s["ops"][:idx + 1] if op_vars(o) & vs]
         if len(group) < len(s["ops"]):
@@ -1527,7 +1627,10 @@ def run(ctx):
                 "names, variadic and fixed signatures, edge-pool and falsy return values, tuples, raising bodies), 1-4 ops "
                 "(call / notification / MultiCall batch of 1-6 jobs / out-of-domain op) with positional, keyword or no "
                 "arguments), each run on a real ServerProxy with a History against the listed rig; distinct_nontrivial = "
-                "distinct (rig, version pair, translation flags, per-op style/target/dotted/return shape)")
+                "distinct (rig, version pair, translation flags, per-op style/target/dotted/return shape); plus registry "
+                "programs (calls interleaved with register_function / del funcs[name] / register_instance / setattr / delattr "
+                "on instance objects / register_introspection_functions; distinct by the sequence of operations and called "
+                "names) and boundary-size scenarios (distinct by dimension and size)")
     tmpdir = tempfile.mkdtemp(prefix="verif-c01-")
     old_timeout = socket.getdefaulttimeout()
     socket.setdefaulttimeout(WATCHDOG)
@@ -1551,16 +1654,32 @@ def run(ctx):
             reuse = reuse_hand_written() + [gen_reuse(rrng) for _ in range(rcount)]
             # every rig sees the hand-written cases, the long and the sized payloads; non-ASCII payloads over real
             # sockets (bodies spanning several reads, in both directions) are what exposes codec / framing changes
-            scenarios = hw + reuse + long_payloads() + sized_payloads(rig_spec, big=True) + scenarios
+            # the registry as a mutable object: hand-written programs on every rig, random ones mostly on the bare rig
+            grng = ctx.derive_rng("registry/%s/%s/%s" % rig_spec)
+            gcount = ctx.budget(250, 4000) if rig_spec == ("bare", "loop", "std") else ctx.budget(30, 300)
+            registry = c01reg.registry_hand_written() + [c01reg.gen_registry_scenario(grng, value) for _ in range(gcount)]
+            # boundary sizes: every dimension on the bare rig; on the other rigs the core batch sizes, and every
+            # dimension for a slice of the sizes that rotates with the rig (and the seed)
+            all_sizes = c01reg.SIZES_THOROUGH if (ctx.thorough or ctx.searching) else c01reg.SIZES_QUICK
+            if rig_spec == ("bare", "loop", "std"):
+                sized = c01reg.sized_scenarios(all_sizes, full=True, k=n)
+            else:
+                off = grng.randrange(4)
+                sized = (c01reg.sized_scenarios(c01reg.SIZES_CORE, full=False, k=n)
+                         + c01reg.sized_scenarios([x for i, x in enumerate(all_sizes) if (i + n + off) % 4 == 0 and x <= 129], full=True, k=n))
+            scenarios = hw + reuse + registry + sized + long_payloads() + sized_payloads(rig_spec, big=True) + scenarios
+            import time as _time
+            t_rig = _time.time()
             run_group(ctx, rig_spec, scenarios, tmpdir, lines, pending)
+            ctx.extra.setdefault("rig_seconds", {})["%s/%s/%s" % rig_spec] = round(_time.time() - t_rig, 1)
         # the codec laws on everything that was generated
         values, batches = [], []
         for s, _rig, _p in pending[: ctx.budget(600, 4000)]:
             for c in s["callables"]:
-                if c["beh"][0] != "raise":
+                if c["beh"][0] in ("ret", "rett"):
                     values.append(tuplify(c["beh"][1]) if c["beh"][0] == "rett" else c["beh"][1])
             for op in s["ops"]:
-                if op.get("kind") == "script":
+                if op.get("kind") == "script" or op["op"] == "reg":
                     continue
                 for j in (op.get("jobs") or [op]):
                     a, kw = send_args(j)
@@ -1582,7 +1701,10 @@ def run(ctx):
     if gate != ["ok I0"]:
         ctx.disagree("Gate20", "ok I0", gate[0], component="gate")
 
+    import time as _time
+    t_model = _time.time()
     outs = ctx.lean(lines)
+    ctx.extra["model_seconds"] = round(_time.time() - t_model, 1)
     unmodelled = 0
     for (s, rig_spec, real), line in zip(pending, outs):
         model = project_model(s, line)
